@@ -5,6 +5,7 @@ import (
 	"fmt"
 	"strconv"
 	"sync"
+	"sync/atomic"
 	"time"
 
 	jsonrpc "github.com/filecoin-project/go-jsonrpc"
@@ -101,6 +102,14 @@ func (c08) Plan(tier string, seed int64) []core.Scenario {
 	for i := 0; i < 3; i++ {
 		out = append(out, core.Sc("typeskew").WithN("end", i))
 	}
+	// thousands of subscriptions cancelled while their handlers are streaming at full speed, several per connection
+	ncs := 2
+	if tier == "thorough" {
+		ncs = 16
+	}
+	for i := 0; i < ncs; i++ {
+		out = append(out, core.Sc("cancel-storm").WithN("workers", 6+2*(i%2)).WithN("cancels", 2500).WithN("plain", 1))
+	}
 	for i := range out {
 		out[i].Seed = seed*49979687 + int64(i)
 		out[i] = out[i].WithN("noise", i%3)
@@ -123,6 +132,8 @@ func (p c08) Run(sc core.Scenario) core.Result {
 		p.w5(sc, r)
 	case "typeskew":
 		p.typeSkew(sc, r)
+	case "cancel-storm":
+		p.cancelStorm(sc, r)
 	}
 	return r.Result()
 }
@@ -747,4 +758,87 @@ func (c08) typeSkew(sc core.Scenario, r *core.R) {
 	r.Obs("terminations", 1)
 	r.Sig(core.Log.Signature())
 	r.Sample(map[string]interface{}{"scenario": "stream of values the client's channel type cannot hold", "ended_by": end, "values_delivered": delivered})
+}
+
+// cancelStorm: several callers share one ws client; each subscribes to an endless stream, reads a few
+// values, cancels the subscription while the handler is still streaming, and keeps draining until the
+// channel is closed. Whatever was delivered must be a gap-free prefix of what the handler sent, and the
+// channel must be closed.
+func (c08) cancelStorm(sc core.Scenario, r *core.R) {
+	env := NewEnv(EnvOpt{NoProxy: true})
+	defer env.Shutdown()
+	cl, err := env.NewClient(ClientOpt{})
+	if err != nil {
+		r.Inconclusive("client: %v", err)
+		return
+	}
+	bg := context.Background()
+	var wg sync.WaitGroup
+	var cancels, holes, open int64
+	var mu sync.Mutex
+	reported := 0
+	for w := 0; w < sc.I("workers"); w++ {
+		wg.Add(1)
+		go func(w int) {
+			defer wg.Done()
+			rng := core.Scenario{Seed: sc.Seed + int64(w)}.Rand()
+			for i := 0; i < sc.I("cancels"); i++ {
+				t := Tok("z")
+				ctx, cancel := context.WithCancel(bg)
+				ch, err := cl.Sub(ctx, t, 0, svc.SInfinite)
+				if err != nil || ch == nil {
+					cancel()
+					continue
+				}
+				k := 1 + rng.Intn(20)
+				next, bad := 0, ""
+				closed := false
+				timeout := time.After(core.Grace)
+			loop:
+				for {
+					select {
+					case v, ok := <-ch:
+						if !ok {
+							closed = true
+							break loop
+						}
+						if bad == "" && (v.Tok != t || v.Seq != next) {
+							bad = fmt.Sprintf("value #%d is %s:%d, expected %s:%d", next, v.Tok, v.Seq, t, next)
+						}
+						next++
+						if next == k {
+							cancel()
+						}
+					case <-timeout:
+						break loop
+					}
+				}
+				cancel()
+				atomic.AddInt64(&cancels, 1)
+				mu.Lock()
+				if !closed {
+					atomic.AddInt64(&open, 1)
+					if reported < 3 {
+						reported++
+						r.Violate("channel-not-closed:cancel-storm", "subscription %s cancelled after %d values while its handler was streaming: the channel is still open %v later", t, k, core.Grace)
+					}
+				} else if bad != "" {
+					atomic.AddInt64(&holes, 1)
+					if reported < 3 {
+						reported++
+						r.Violate("stream-reordered-or-lost", "subscription %s cancelled after %d values while its handler was streaming: what was delivered before the close is not a prefix of the stream: %s (%d values delivered)", t, k, bad, next)
+					}
+				}
+				mu.Unlock()
+				if atomic.LoadInt64(&open) > 2 {
+					return
+				}
+			}
+		}(w)
+	}
+	wg.Wait()
+	r.Key(fmt.Sprintf("cancel-storm workers=%d", sc.I("workers")), cancels > 0)
+	r.Obs("terminations", cancels)
+	r.Obs("cancels_mid_stream", cancels)
+	r.Sample(map[string]interface{}{"scenario": "subscriptions cancelled while streaming, several callers on one client", "cancels": cancels, "not_a_prefix": holes, "left_open": open})
 }
